@@ -4,6 +4,7 @@ from leanout import lbytes, lstr, write_if_changed
 import grammar, conv, corpus
 import entry as entrymod
 import statics as staticsmod
+import panics as panicsmod
 from rustsrc import REPO, unescape_rust_str
 
 NSHARDS = 16
@@ -222,6 +223,8 @@ def generate(workdir='/verif/work'):
         g.append('def grammar : Grammar := { prods := allProds, kwTables := kwTables, kwDefault := kwDefault }')
     g.append('/-- the version strings accepted by `begin_keywords, in the order of the version codes -/')
     g.append('def kwNames : List (List Nat) := [%s]' % ', '.join(lbytes(v) for v in vers))
+    for cn in ('AZ_', 'AZ09_', 'AZ09_DOLLAR'):
+        g.append('def const%s : List Nat := %s' % (cn, lbytes(tr.consts.get(cn, ''))))
     g.append('def nProds : Nat := %d' % len(names))
     for entry in ('source_text', 'source_text_incomplete', 'library_text', 'library_text_incomplete', 'preprocessor_text',
                   'white_space', 'description', 'library_description', 'source_description', 'simple_identifier_impl',
@@ -286,6 +289,9 @@ def generate(workdir='/verif/work'):
     eo, eproblems = entrymod.generate()
     etext, eok = entrymod.emit(eo, eproblems)
     if write_if_changed(os.path.join(GEN, 'Entry.lean'), etext): changed.append('Entry')
+    pcur = panicsmod.scan()
+    pbase = json.load(open(os.path.join(os.path.dirname(os.path.abspath(__file__)), 'panic_baseline.json')))['sites']
+    panic_growth = panicsmod.compare(pcur, pbase)
     sitems, sclears = staticsmod.generate()
     if write_if_changed(os.path.join(GEN, 'Statics.lean'), staticsmod.emit(sitems, sclears)): changed.append('Statics')
     # memo capacity constant of the storage! invocation
@@ -317,7 +323,7 @@ def generate(workdir='/verif/work'):
         'productions': len(names), 'opaque': tr.opaque, 'combinators': sorted(tr.comb_templates),
         'packrat': sum(1 for n in names if prods[n]['packrat']), 'recursive': sum(1 for n in names if prods[n]['recursive']),
         'kinds': len(tr.kinds), 'keyword_tables': {v: len(t) for v, t in zip(vers, tbls)}, 'kw_default': dflt,
-        'kw_problems': kw_problems, 'entry_problems': eproblems, 'statics': [list(x) for x in sitems], 'clears': sclears, 'conv_rows': len(rows), 'conv_opaque': conv_opaque,
+        'kw_problems': kw_problems, 'entry_problems': eproblems, 'statics': [list(x) for x in sitems], 'clears': sclears, 'panic_growth': panic_growth, 'panic_sites': sum(sum(v.values()) for v in pcur.values()), 'conv_rows': len(rows), 'conv_opaque': conv_opaque,
         'productive_marks': len(mlist), 'unmarked': sorted(n for n in names if n not in marks),
         'corpus': cn, 'test_macros': ctotal, 'changed_modules': changed,
         'names': names, 'kind_names': ['Locate'] + [k[0] for k in tr.kinds],
